@@ -221,7 +221,9 @@ class MultiTaskBCD(BaseSolver):
             else:
                 if W_init is not None:
                     W = W_init.T
-                    XW = np.asfortranarray(X @ W)
+                    # when fit_intercept=True the last row of W is the intercept
+                    XW = np.asfortranarray(
+                        X @ W[:n_features] + self.fit_intercept * W[-1])
                     p0 = max(len(np.where(W[:, 0] != 0)[0]), p0)
                 else:
                     W = np.zeros(
